@@ -17,6 +17,10 @@ type World struct {
 	R  *Replica
 	N  Nonces
 	TS int64
+	// Votes is the number of genesis admins that vote in the fixture's governance flows (a simple majority).
+	Votes int
+	// Rec, if set, is told every block fed through Exec (for replay on other replicas).
+	Rec func(txs []pb.Transaction, ts int64, local []bool)
 }
 
 const BxhID = "1356"
@@ -41,7 +45,7 @@ func OpenWorld(dir string, o Options) (*World, error) {
 	if err != nil {
 		return nil, err
 	}
-	return &World{R: r, N: Nonces{}, TS: 1000000 + int64(r.Height())*1000}, nil
+	return &World{R: r, N: Nonces{}, TS: 1000000 + int64(r.Height())*1000, Votes: len(r.Cfg.Genesis.Admins)/2 + 1}, nil
 }
 
 // Nonce returns the next nonce of k, reading the ledger (through the view ledger) the first time.
@@ -58,7 +62,29 @@ func (w *World) Stamp() int64 { w.TS++; return w.TS }
 // Exec executes one block with the given transactions.
 func (w *World) Exec(txs ...pb.Transaction) (*BlockResult, error) {
 	w.TS += 1000
+	txs = WireRoundTrip(txs)
+	if w.Rec != nil {
+		w.Rec(txs, w.TS, nil)
+	}
 	return w.R.ExecBlock(txs, w.TS, nil)
+}
+
+// WireRoundTrip marshals and unmarshals the transactions, as ordering does with every batch:
+// what gets executed is what every other replica would decode from the wire (e.g. an empty
+// payload becomes nil).
+func WireRoundTrip(txs []pb.Transaction) []pb.Transaction {
+	if len(txs) == 0 {
+		return txs
+	}
+	raw, err := (&pb.Transactions{Transactions: txs}).Marshal()
+	if err != nil {
+		return txs
+	}
+	out := &pb.Transactions{}
+	if err := out.Unmarshal(raw); err != nil || len(out.Transactions) != len(txs) {
+		return txs
+	}
+	return out.Transactions
 }
 
 func (w *World) BVM(k *Key, contract *types.Address, method string, args ...*pb.Arg) *pb.BxhTransaction {
@@ -115,7 +141,7 @@ func (w *World) RegisterAppchain(k *Key, chainID, chainType, ruleAddr string, tr
 		return err
 	}
 	pid := ProposalID(rc)
-	res, err := w.VoteAll(pid, 3, "approve")
+	res, err := w.VoteAll(pid, w.Votes, "approve")
 	if err != nil {
 		return err
 	}
@@ -140,7 +166,7 @@ func (w *World) RegisterService(k *Key, chainID, svc string, ordered bool, black
 		return err
 	}
 	pid := ProposalID(rc)
-	res, err := w.VoteAll(pid, 3, "approve")
+	res, err := w.VoteAll(pid, w.Votes, "approve")
 	if err != nil {
 		return err
 	}
@@ -175,6 +201,12 @@ func BuildStandard(dir string, o Options) (*World, error) {
 	if err != nil {
 		return nil, err
 	}
+	return w, w.BuildStandard()
+}
+
+// BuildStandard runs the fixture transactions on an open world.
+func (w *World) BuildStandard() error {
+	var err error
 	a0 := AdminKey(0)
 	var fund []pb.Transaction
 	for _, c := range []string{ChainA, ChainB, ChainC, "chainW", "chainT", "chainU", "hub2"} {
@@ -186,24 +218,24 @@ func BuildStandard(dir string, o Options) (*World, error) {
 	fund = append(fund, w.Transfer(a0, Pauper().Addr, "12000000000")) // one BVM fee and a bit
 	res, err := w.Exec(fund...)
 	if err != nil {
-		return nil, err
+		return err
 	}
 	for _, r := range res.Receipts {
 		if r.Status != pb.Receipt_SUCCESS {
-			return nil, fmt.Errorf("funding failed: %s", string(r.Ret))
+			return fmt.Errorf("funding failed: %s", string(r.Ret))
 		}
 	}
 	for _, c := range []string{ChainA, ChainB, ChainC} {
 		if err := w.RegisterAppchain(ChainAdmin(c), c, "ETH", validator.HappyRuleAddr, nil); err != nil {
-			return nil, err
+			return err
 		}
 		for _, s := range []string{"s1", "s2"} {
 			if err := w.RegisterService(ChainAdmin(c), c, s, true, ""); err != nil {
-				return nil, err
+				return err
 			}
 		}
 	}
-	return w, nil
+	return nil
 }
 
 // CopyDir copies a closed replica directory.
@@ -252,26 +284,30 @@ func (w *World) Interchain(id string) *pb.Interchain {
 // BuildExtended = standard fixture + appchains bound to harness-authored WASM rules:
 // chainW (accepts iff proof[0]==1, else plain false), chainT (rule traps), chainU (rule burns all fuel).
 func BuildExtended(dir string, o Options) (*World, error) {
-	w, err := BuildStandard(dir, o)
+	w, err := OpenWorld(dir, o)
 	if err != nil {
 		return nil, err
 	}
-	for chain, kind := range map[string]string{"chainW": "firstbyte", "chainT": "trap", "chainU": "burn"} {
-		_ = chain
-		_ = kind
+	return w, w.BuildExtended()
+}
+
+// BuildExtended runs the extended fixture transactions on an open world.
+func (w *World) BuildExtended() error {
+	if err := w.BuildStandard(); err != nil {
+		return err
 	}
 	for _, ck := range [][2]string{{"chainW", "firstbyte"}, {"chainT", "trap"}, {"chainU", "burn"}} {
 		k := ChainAdmin(ck[0])
 		addr, err := w.DeployRule(k, ck[1])
 		if err != nil {
-			return nil, err
+			return err
 		}
 		if err := w.RegisterAppchain(k, ck[0], "ETH", addr, nil); err != nil {
-			return nil, err
+			return err
 		}
 		if err := w.RegisterService(k, ck[0], "s1", true, ""); err != nil {
-			return nil, err
+			return err
 		}
 	}
-	return w, nil
+	return nil
 }
